@@ -18,12 +18,12 @@ from vlib import log
 # profile plans: (profile, runs_quick, runs_thorough)
 PLANS = {
     "C01": [("core", 4, 40), ("crashy", 4, 40), ("learners", 2, 25), ("snap", 4, 30), ("conf", 3, 30), ("single", 2, 25), ("reelect", 4, 40), ("prevote", 2, 20)],
-    "C02": [("core", 4, 40), ("crashy", 4, 40), ("prevote", 4, 30), ("conf", 3, 30), ("joint", 3, 30), ("transfer", 4, 30)],
+    "C02": [("core", 4, 40), ("crashy", 4, 40), ("prevote", 4, 30), ("conf", 3, 30), ("joint", 3, 30), ("transfer", 4, 30), ("contend", 4, 30), ("contendpv", 4, 30)],
     "C03": [("core", 4, 40), ("crashy", 4, 40), ("snap", 3, 30), ("prevote", 4, 30), ("five", 2, 20), ("transfer", 4, 30)],
     "C04": [("async", 4, 40), ("crashy", 4, 40), ("joint", 5, 40), ("five", 2, 25), ("single", 2, 20), ("reelect", 5, 40)],
     "C05": [("core", 5, 40), ("flow", 5, 40), ("single", 3, 30), ("crashy", 4, 40)],
-    "C06": [("async", 6, 40), ("single", 4, 40), ("crashy", 5, 40), ("prevote", 3, 30), ("shrink", 3, 30)],
-    "C07": [("async", 5, 40), ("flow", 5, 40), ("snap", 4, 30), ("single", 3, 30), ("conf", 2, 20)],
+    "C06": [("async", 5, 40), ("single", 3, 40), ("crashy", 4, 40), ("prevote", 2, 30), ("shrink", 2, 30), ("contend", 4, 30), ("transfer", 3, 30)],
+    "C07": [("async", 5, 40), ("flow", 4, 40), ("snap", 4, 30), ("single", 2, 30), ("conf", 2, 20), ("contend", 5, 40)],
     "C08": [("read", 8, 80), ("readjoint", 8, 80)],
     "C09": [("conf", 5, 40), ("joint", 5, 40), ("confv1", 4, 40), ("shrink", 3, 30), ("transfer", 4, 30)],
     "C10": [("live", 10, 80)],
@@ -164,6 +164,7 @@ def run(pid, tier, seed, replay, t0):
     traces = 0
     per_profile = []
     drifts = []
+    n_directed_skipped = 0
 
     jobs = []
     if replay:
@@ -176,6 +177,10 @@ def run(pid, tier, seed, replay, t0):
         for f in sorted(glob.glob(os.path.join(vlib.ROOT, "corpus", "directed", "*.json"))):
             meta = json.load(open(f)).get("properties")
             if meta is None or pid in meta:
+                jobs.append(("directed", f))
+        # channel C: shortest counterexamples of the specification with one mechanism ablated
+        for f in sorted(glob.glob(os.path.join(vlib.ROOT, "corpus", "ablation", "*.json"))):
+            if pid in json.load(open(f)).get("properties", []):
                 jobs.append(("directed", f))
 
     for job in jobs:
@@ -191,9 +196,21 @@ def run(pid, tier, seed, replay, t0):
             label = os.path.basename(src)
             trace = os.path.join(outdir, label.replace(".json", "") + ".ndjson")
             cf = json.load(open(src))
-            if "choices_file" in cf:      # a replay descriptor written by an earlier failing run
-                src = cf["choices_file"]
-            n_ev, _skipped = vlib.simrun_replay(src, trace)
+            if cf.get("mc"):              # a TLC schedule (choices carry rt fields and message keys)
+                lines = trace + ".lines"
+                with open(lines, "w") as o:
+                    o.write(json.dumps({"h": cf["choices"]}) + "\n")
+                cj = trace + ".cluster.json"
+                json.dump(cf["cfg"], open(cj, "w"))
+                pr = vlib.run([vlib.SIMRUN, "replaymc", "--lines", lines, "--cfg", cj, "--out", trace], timeout=600)
+                import re as _re
+                mm = _re.search(r"replayed (\d+) schedules, (\d+) events, (\d+) inapplicable", pr.stdout)
+                n_ev = int(mm.group(2)) if mm else 0
+                n_directed_skipped += int(mm.group(3)) if mm else 0
+            else:
+                if "choices_file" in cf:      # a replay descriptor written by an earlier failing run
+                    src = cf["choices_file"]
+                n_ev, _skipped = vlib.simrun_replay(src, trace)
         res = vlib.tlc_trace(trace, os.path.join(outdir, "md"))
         total_states += res["states"]
         total_events += n_ev
@@ -296,6 +313,7 @@ def run(pid, tier, seed, replay, t0):
         "executions": n_runs,
         "impl_events_judged_by_tlc": total_events,
         "antecedent_counters": agg,
+        "directed_schedule_choices_refused_by_impl": n_directed_skipped,
         "conformance_divergences": len(drifts),
         "conformance_divergence_samples": drifts[:5],
         "conformance_note": "every event's successor is also computed by spec/Node.tla+RawNodeOps.tla from the previous implementation state and compared field by field with the projected implementation state (DRIFT lines); drift is not a violation",
